@@ -315,6 +315,23 @@ def rule_GE(ctx):
               has('_a_, _e_, _l_ = dipole_to_point(_p_)', init),
               'point format is not converted through point_to_dipole / '
               'point_to_square_loop', ctx.where(em, init))
+    # roles: dipole_to_point returns (azimuth, elevation, length); the
+    # magnetic branch must put them into (x, y, z, azimuth, elevation), length
+    u = find('_a_, _e_, _l_ = dipole_to_point(_p_)', init)
+    ok = False
+    if u:
+        b = u[0][1]
+        ok = has(f'_c_ = (*_ctr_, {b["_a_"]}, {b["_e_"]})', init) and any(
+            has(f'_q_ = point_to_square_loop({c[1]["_c_"]}, {b["_l_"]})',
+                init) for c in find(f'_c_ = (*_ctr_, {b["_a_"]}, '
+                                    f'{b["_e_"]})', init))
+    ret = [n for n in ast.walk(d2p) if isinstance(n, ast.Return)]
+    ctx.check('C10.GE.formats', 'Dipole: (azimuth, elevation, length) of '
+              'the two-electrode format keep their roles', ok,
+              'the values returned by dipole_to_point (azimuth, elevation, '
+              'length) are not used as (…, azimuth, elevation) and loop '
+              'area: the loop normal is no longer the dipole direction',
+              ctx.where(em, init))
 
 
 def run(ctx):
